@@ -2,6 +2,7 @@ import QmcModel.Proto
 import QmcModel.Basic
 import QmcModel.Rand
 import QmcModel.Cluster
+import QmcModel.ClusterExact
 open Qmc Qmc.Proto
 
 /-- all bit patterns of length `k` -/
@@ -101,8 +102,41 @@ def doSingle (fz sb slb : String) (n : Nat) (rest : List String) : String :=
     | _, _ => "bad:parse"
   if rest.length != 2 * n then "bad:arity" else go rest (n + 1) [] 0
 
+/-- do the traversal's own boundary labels (cluster numbers per op side) name the components of the
+representatives, and do distinct cluster numbers name distinct components? -/
+def travAgrees (sk : Skel) (tr : TravResult) : Bool :=
+  let g := legGraph sk
+  let lab := compLab sk
+  if tr.count == 0 then g.opsAt.isEmpty
+  else if tr.whole then !tr.bad && tr.count == 1
+  else
+    let reps := tr.reps.toArray
+    let labs := tr.reps.map fun r => lab[r]!
+    let ps := (List.range sk.length).filter fun p => match sk[p]? with | some (some _) => true | _ => false
+    !tr.bad && tr.count == reps.size && labs.eraseDups.length == labs.length && ps.length == g.opsAt.length &&
+    (ps.zip g.opsAt).all fun (p, (off, o)) =>
+      match tr.bin[p]!, tr.bout[p]! with
+      | some a, some b =>
+        a < reps.size && b < reps.size && lab[off]! == lab[reps[a]!]! &&
+          lab[off + 2 * o.vars.length - 1]! == lab[reps[b]!]!
+      | _, _ => false
+
+/-- `exact <flip|step> <frozen bonds> <stateB> <slotsB> <draws>` → the exact model `clusterUpdate`
+(followed by the free-spin refresh for `step`): `<stateA> <slotsA> <returned count> <rng verdict>
+<traversal labels = components>` — compared token by token with what the real code produced -/
+def doExact (mode fz sb slb dr : String) : String :=
+  let fr := frOf (parseNats fz)
+  let b : Config := { state := parseBits sb, slots := parseSlots slb }
+  let rs0 := RS.ofScript (parseNats dr)
+  let (tr, a, rs1) := clusterUpdateTrace (1 / 2) fr b rs0
+  let sk := skeleton b.slots
+  let (st, rs2) := if mode == "step" then freeRefresh sk 0 a.state rs1 else (a.state, rs1)
+  let v := if tr.trav.bad then "PANIC" else rs2.verdict
+  s!"{showBits st} {showSlots a.slots} {tr.trav.count} {v} {b2s (travAgrees sk tr.trav)}"
+
 def step (toks : List String) : String :=
   match toks with
+  | ["exact", mode, fz, sb, slb, dr] => doExact mode fz sb slb dr
   | ["move", mode, fz, h, sb, slb, sa, sla, dr] => doMove mode fz h sb slb sa sla dr
   | "single" :: fz :: sb :: slb :: n :: rest => doSingle fz sb slb (parseNat n) rest
   -- two real code paths compared with each other (timestep vs its parts); nothing for the model to add
